@@ -235,3 +235,9 @@ def gen(seed, tier, scale):
     for i, r in enumerate(rngs):        # sequential: the case redirects stdout in-process
         yield idx + i, cli_case(r)
     idx += ncli
+    # wave 18: the command with every source format and reader option against TT.runGrammarSrc
+    import srccases
+    nsrc = (16 if tier == "quick" else 300) * scale
+    rngs = [case_rng(seed, ID, 700000 + i) for i in range(nsrc)]
+    for i, c in enumerate(cli.pmap(srccases.grammar_case, rngs)):
+        yield 700000 + i, c
